@@ -81,7 +81,7 @@ def cases(tier, seed):
         recs_d.append(['er', n, p, True, int(rs.randint(1 << 30))])
         recs_d.append(['named', 'er_strong', n, p / 2, int(rs.randint(1 << 30))])
     for i, g in enumerate(recs_u):
-        for w in (('bin', 'real', 'int') if thorough else (('bin', 'real', 'int')[i % 3], 'bin')):
+        for w in (('bin', 'real', 'int', 'logu') if thorough else (('bin', 'real', 'int', 'logu')[i % 4], 'bin')):
             for f in UND_F:
                 if f == 'randomizer_bin_und' and w != 'bin':
                     continue
@@ -89,11 +89,21 @@ def cases(tier, seed):
                             'itrs': [0, 1, 3] if thorough else [0, 2], 'rs': seed * 100 + i, 'pol': POL[i % len(POL)],
                             'allpol': thorough and i % 5 == 0})
     for i, g in enumerate(recs_d):
-        for w in (('bin', 'real', 'int') if thorough else (('bin', 'real', 'int')[i % 3], 'bin')):
+        for w in (('bin', 'real', 'int', 'logu') if thorough else (('bin', 'real', 'int', 'logu')[i % 4], 'bin')):
             for f in DIR_F:
                 out.append({'f': f, 'g': g, 'w': w, 'ws': i, 'directed': True, 'kind': 'single',
                             'itrs': [0, 1, 3] if thorough else [0, 2], 'rs': seed * 100 + i, 'pol': POL[i % len(POL)],
                             'allpol': thorough and i % 5 == 0})
+    # (c') sizes beyond any plausible fast-path threshold (a few hundred nodes), small budgets
+    for n in ((260, 520) if thorough else (260,)):
+        for f in UND_F:
+            if f == 'randomize_graph_partial_und':
+                continue
+            out.append({'f': f, 'g': ['named', 'er_connected', n, 3.0 / n, seed + n], 'w': 'real' if f != 'randomizer_bin_und' else 'bin',
+                        'ws': n, 'directed': False, 'kind': 'single', 'itrs': [1], 'rs': seed * 100 + n, 'pol': 'sticky', 'big': True})
+        for f in DIR_F:
+            out.append({'f': f, 'g': ['named', 'er_strong', n, 3.0 / n, seed + n], 'w': 'real', 'ws': n, 'directed': True,
+                        'kind': 'single', 'itrs': [1], 'rs': seed * 100 + n, 'pol': 'sticky', 'big': True})
     # (d) trajectories of single-iteration calls
     L = 500 if thorough else 50
     chain_u = [['named', 'er_connected', 8, .3, seed], ['named', 'ring_of_cliques', 3, 3], ['named', 'grid', 3, 3],
@@ -174,6 +184,8 @@ def run(case, bct, REC):
         return
     pols = POL if case.get('allpol') else [case['pol']]
     descrs = [{'kind': 'spy', 'seed': case['rs']}] + [{'kind': 'hostile', 'policy': p, 'seed': case['rs']} for p in pols]
+    if case.get('big'):
+        descrs = descrs[:1]
     for itr in case['itrs']:
         for di, d in enumerate(descrs):
             rng = rngmod.make_rng(d)
